@@ -990,8 +990,8 @@ def exn_small(ex):
 
 def c18_impl(cs):
     """-> (code, post) where post is None or the exception raised by calc_chi2/optimize after acceptance"""
-    es, vs = c18_build(cs)
     try:
+        es, vs = c18_build(cs)          # a constructor that refuses its arguments is a refusal too (the model only knows Graph(...) refusing)
         g = Graph(es, vs)
     except Exception as ex:
         return exn_small(ex), None
@@ -1233,7 +1233,7 @@ def c18_binding_graphs(rng, n):
                     if c_ < 0.35:
                         sh = (sh[0], sh[1] + 1)
                     elif c_ < 0.6:
-                        sh = rng.choice([(sh[0],), (sh[0],) * 3, ()])      # information that is not a matrix at all: a vector of length n, n x n x n, 0-d
+                        sh = rng.choice([(sh[0],), (sh[0],) * 3, (), (sh[0], 1), (1, sh[0])])      # information that is not an n x n matrix: a vector of length n, n x n x n, 0-d, a column, a row
                     else:
                         ek = (k + 1) % 4
                 es.append((0, [a, b], sh, ek, 0))
@@ -1242,7 +1242,7 @@ def c18_binding_graphs(rng, n):
                 lastk = {i: k for i, k in vs}
                 sh = (PDIM[KINDS[lastk[b]]],) * 2
                 if rng.random() < 0.2:
-                    sh = (sh[0] + 1, sh[1]) if rng.random() < 0.6 else rng.choice([(sh[0],), (sh[0],) * 3, ()])
+                    sh = (sh[0] + 1, sh[1]) if rng.random() < 0.6 else rng.choice([(sh[0],), (sh[0],) * 3, (), (sh[0], 1), (1, sh[0])])
                 es.append((1, [a, b], sh, lastk[b], lastk[a]))
         out.append((es, vs))
     return out
@@ -1264,14 +1264,19 @@ def binding_impl(g):
     es, vs = g
     V = [Vertex(i, mkpose(KINDS[k], j)) for j, (i, k) in enumerate(vs)]
     E = []
+    ctor_exc = None
     for c, ids, sh, e, o in es:
         info = np.eye(sh[0], sh[1]) if len(sh) == 2 else np.ones(tuple(sh))
-        if c == 0:
-            E.append(EdgeOdometry(list(ids), info, mk_other(e, 'est')))
-        elif c == 1:
-            E.append(EdgeLandmark(list(ids), info, mk_other(e, 'est'), offset=mk_other(o, 'off')))
-        else:
-            E.append(K0(list(ids), info, mk_other(e, 'est')))
+        try:
+            if c == 0:
+                E.append(EdgeOdometry(list(ids), info, mk_other(e, 'est')))
+            elif c == 1:
+                E.append(EdgeLandmark(list(ids), info, mk_other(e, 'est'), offset=mk_other(o, 'off')))
+            else:
+                E.append(K0(list(ids), info, mk_other(e, 'est')))
+        except Exception as ex:  # noqa  (a constructor that refuses its arguments: judged below like a refusal by Graph(...))
+            ctor_exc = ex
+            break
     # the declarative outcome for a multi-edge construction: unknown id anywhere -> KeyError (binding comes first); else any inconsistent
     # edge, at ANY position of the list -> AssertionError; else accepted
     lastk = {i: k for i, k in vs}
@@ -1297,6 +1302,8 @@ def binding_impl(g):
             except Exception:  # noqa
                 pass
     try:
+        if ctor_exc is not None:
+            raise ctor_exc
         Graph(E, V)
     except Exception as ex:
         code = exn_small(ex)
